@@ -21,8 +21,81 @@ CLAIMED["C11"] = {
     "technique": "Coq proof (inductive ledger invariant over reachable path states; case analysis) + model/implementation correspondence + known-finding classifier proved to accept every model run",
 }
 
+def _c(text, ref, note, technique):
+    return {"text": text, "design_ref": ref, "note": note, "technique": technique}
+
+_TB = "trusted: Coq kernel, translator (tools/gen_consts.py + genfam), extraction (ExtrOcamlBasic only), OCaml driver, Rust harness"
+
+CLAIMED["C01"] = _c(
+    "Coq theorems: (i) composition - whatever list of sender frames (each a slice of the written bytes) the network hands to the receiver, the bytes read are a prefix of the bytes written and equal them at a clean FIN (C01_stream_exact_delivery, all byte types, all frame lists); (ii) the reassembly spec is first-write-wins and its pops are the ordered contiguous prefix for every op sequence and chunking; (iii) the slot-level model of Reassembler rejects exactly the writes that contradict the final size / exceed the max offset and leaves the state unchanged, agrees with the spec on cursors and acceptance for every op sequence (refinement of popped content is _partial: carried by differential execution with full-content checksums plus the spec judgement). Tied to reassembler.rs by generated allocation constants and by differential execution of the slot model against the real Reassembler after every op (counters, checksums, slot layout)",
+    "5.1, 12",
+    _TB + " h_core/C01; hypotheses of the composition theorem are the component results of C12 (frames are slices), C06 (ideal AEAD rejects damaged datagrams) and the Reassembler refinement; BytesMut identity/unsafe and the read APIs other than pop/pop_watermarked are not modelled; no axioms",
+    "Coq proof (induction over frame lists / op sequences; spec refinement, partly partial) + model/implementation correspondence + spec judgement")
+
+CLAIMED["C04"] = _c(
+    "Coq theorems: the frame-type x packet-number-space permission matrix generated from space/{mod,initial,handshake,application}.rs equals RFC 9000 Table 3 (finite table, vm_compute), rejections use PROTOCOL_VIOLATION, error codes match RFC 20.1; for the receive side of a stream, on_data returns an error exactly when the RFC predicate (flow-control limits, final size changed/exceeded/below received, offset overflow) is violated, with code FLOW_CONTROL_ERROR / FINAL_SIZE_ERROR, and for all op sequences every advertised MAX_DATA / MAX_STREAM_DATA <= consumed + window and the buffered span <= window. Tied to the code by the matrix translator and by differential execution of the FlowRecv model against the real DefaultStreamManager through hook H1 (recv.rs); an independent RFC judgement is applied to the implementation's outputs. Finding F-a (RESET_STREAM final size below received data accepted) is reported as KNOWN-FINDING; the stream-count / direction checks of the stream manager are not covered",
+    "5.4, 12",
+    _TB + " h_transport/C04 + hook recv.rs; judge_run for the rx component is not proved (model/judge agreement rests on execution); closed-receive-half leniency and the consumed+window enforcement zone are accepted either way (observations O-b, O-c); no axioms",
+    "Coq proof (finite table by vm_compute; invariant by induction over op sequences) + translator + model/implementation correspondence + RFC judgement")
+
+CLAIMED["C08"] = _c(
+    "Coq theorems for all packet numbers below 2^62: the code's decode_packet_number equals RFC 9000 A.3 (clamped at 2^62-1), truncation is defined iff 2(pn-la) < 2^32 and picks the shortest sufficient length, and every expansion base L >= largest_acked with pn inside the window of L+1 reconstructs pn (in-order corollary without window hypothesis); TxPacketNumbers hands out strictly increasing numbers, skipped numbers are never sent; for every AckManager configuration and op sequence every emitted ACK range lies inside the set of processed packet numbers and out-of-order / CE packets activate transmission in the same step. Tied to the code by generated constants and differential execution (pn in core; TxPacketNumbers and AckManager through hook H1 ack_manager.rs); the ack-delay deadline is judged on implementation outputs but not proved (no theorem ack_deadline)",
+    "5.8, 12",
+    _TB + " h_transport/C08 + hook ack_manager.rs; the receiver's decode base is deliberately not required to be monotone (observation O4); ack::Ranges is modelled by its abstract value (internals under C16); no axioms",
+    "Coq proof (arithmetic over N with lia; invariants by induction) + model/implementation correspondence + property judgement")
+
+CLAIMED["C10"] = _c(
+    "Coq theorems over models of CubicCongestionController and of the BBR window assignment sites for every event sequence: CUBIC window >= 2*mds (under the single monitored oracle assumption for the congestion-avoidance curve), a loss/ECN signal never increases it and leaves it unchanged inside a recovery period, an ack while application-limited changes nothing, persistent congestion gives exactly 2*mds, bytes_in_flight = sent - acked - lost - discarded within u32; BBR window >= 4*mds at each assignment site for arbitrary model values; f32 arithmetic of the multiplicative decrease is modelled exactly by round-to-nearest-even on 24-bit mantissas (no Flocq, no axioms); RFC constants (0.7, 0.4, 2*mds, 4*mds, initial window) pinned by generated constants. Tied to the code by two-pass differential execution through the public CongestionController trait and a judgement of every implementation row",
+    "5.10, 12",
+    _TB + " h_core/C10; oracles: the cubic/Reno curve in congestion_avoidance and the f32 rescale in on_mtu_update (implementation values fed back and clamped); the pacer, on_rtt_update and BBR's bandwidth model are not modelled (BBR model takes the implementation's window as oracle inside the proved envelope); a halved BBR set_cwnd clamp was not reached by generated histories (covered only by the theorem over the modelled code)",
+    "Coq proof (invariants by induction over event sequences; exact f32 rounding model) + model/implementation correspondence + property judgement")
+
+CLAIMED["C13"] = _c(
+    "Coq theorems over models of LocalIdRegistry and PeerIdRegistry: in every reachable registry the number of active ids <= the limit in force <= the peer's limit, sequence numbers strictly increase and ids are pairwise distinct, every emitted NEW_CONNECTION_ID names a registered unretired id with its own sequence number/token and the current retire_prior_to, every RETIRE_CONNECTION_ID names an issued sequence number whose id is not the DCID in use, and a received NEW_CONNECTION_ID is refused exactly under the RFC 19.15 conditions; rpt <= seq is refuted on the faithful model and the real code (non-monotone lifetimes; KNOWN-FINDING). Tied to the code by generated constants and differential execution of both registries plus the mapper through hook H1 (cids.rs); routing of every unretired id is judged on implementation outputs (all-histories routing invariant and the general judge_run are not proved)",
+    "5.13, 12",
+    _TB + " h_transport/C13 + hook cids.rs; PathManager/ConnectionImpl glue is re-created in the harness; no axioms",
+    "Coq proof (invariants by induction over registry operations, partly partial) + model/implementation correspondence + property judgement")
+
+CLAIMED["C14"] = _c(
+    "Coq theorems over the model of the transport-parameter decoder: generated ids/bounds/defaults are the RFC 9000 18.2 values; the decode loop equals the RFC entry grammar followed by a fold; a block is accepted iff the independent RFC table (7.4/18.2, three-valued where the RFC is silent) accepts it - proved for blocks without preferred_address / dc-version entries and outside the two recorded deviation classes (_partial), refuted inside them (KNOWN-FINDINGs ade_nonminimal, rscid_short); every rejection maps to TRANSPORT_PARAMETER_ERROR; every field of an accepted block is the declared value or the RFC default; unknown parameters are ignored. Two defects were repaired by fix: commits (max_ack_delay = 2^14, zero-length CID in preferred_address). Tied to the code by the parameter-table translator and differential execution of Client/ServerTransportParameters decoding incl. derived limits; the RFC judgement is applied to implementation outputs",
+    "5.14, 12",
+    _TB + " h_core/C14; connection-id authentication of session_context.rs is modelled and proved on the model only (no correspondence); preferred_address and dc-version codecs are tested, not proved against the RFC rule; no axioms",
+    "Coq proof (grammar/fold equivalence, table case analysis) + translator + model/implementation correspondence + RFC judgement")
+
+CLAIMED["C15"] = _c(
+    "Coq theorems over the model of KeySet/limited::Key (after the two fix: commits) for all limits, windows and op sequences: no generation seals more packets than its confidentiality limit, an expired key refuses (AeadLimitReached, state unchanged), needs_update fires a window before the limit, reaching the integrity limit yields AEAD_LIMIT_REACHED, the generations used for successive packet numbers never decrease (unconditional), the active/other slot structure invariant; RFC 9001 6.6 limits pinned by generated constants; mutual decryptability of two endpoints is _partial (two stated hypotheses on reordering delay and update spacing). Tied to the code by differential execution of one and of two communicating real KeySets with a generation-tagged key type through real short-header packets; defects F3 and F4 were found by the check and repaired",
+    "5.15, 12",
+    _TB + " h_core/C15; ideal AEAD (decrypt succeeds iff generations match); application.rs glue only read by the translator; no axioms",
+    "Coq proof (invariants by induction over op sequences) + model/implementation correspondence + property judgement")
+
+CLAIMED["C16"] = _c(
+    "Coq theorems: SlidingWindow refines the plain set of accepted packet numbers for every op history (accept iff unseen and within 128 of the edge; Duplicate/TooOld exactly otherwise; evicted set exact; model run = spec run); the reference interval-set insert/remove mean plain set insert/remove and keep the list well formed; IntervalSet::insert_front and insert (below the binary-search threshold) equal the reference on every well-formed set and over every history (_partial: binary-search start, remove, contains, set operations, ack::Ranges and the packet-number Map are control-flow models checked differentially and judged against the reference, not proved); the Reassembler half is C01. Tied to the code by generated constants (128/129, limits, capacities) and differential execution on the public APIs with full content dumps after every op incl. exhaustive short sequences",
+    "5.16, 12",
+    _TB + " h_core/C16 (and h_core/C01 for the Reassembler); no axioms",
+    "Coq proof (refinement to set specs by induction, partly partial) + model/implementation correspondence + reference-set judgement")
+
+CLAIMED["C02"] = _c(
+    "PARTIAL (the async executor / waker runtime is not modelled). Coq theorems for all operation histories: the retransmission state machines IncrementalValueSync / OnceSync / PeriodicSync (carriers of MAX_*, *_BLOCKED, RESET_STREAM, STOP_SENDING, HANDSHAKE_DONE) have no reachable quiescent state with a pending undelivered value - it is in flight, asks for transmission or (PeriodicSync) holds an armed timer; loss, ack, transmit opportunity and timer expiry each make progress; the idle deadline arithmetic (effective timeout = min of the advertised non-zero values raised to at least 3 x PTO, reset on each processed packet and once on the first ack-eliciting send afterwards, expiry closes, a blackhole moves the deadline at most once); the PTO/loss-timer decision (armed whenever required; exactly four cancel conditions; _partial: decision function, not manager histories). Tied to the code by differential execution of the real sync components through hook H1 (sync.rs), of MaxIdleTimeout/Timer arithmetic, by generated constants and translator shape checks of the four idle-timer statements in connection_impl.rs; end-to-end stall/timeout behaviour of running connections is judged by the verified e2e_stream monitor (two liveness findings are reported as KNOWN-FINDINGs)",
+    "5.2, 12",
+    _TB + " h_transport/C02 + hook sync.rs (+ h_e2e for the e2e component); NOT covered: wakeup_queue, event_loop, stream read/write wakers, lost wake-ups under particular task interleavings, that on_timeout/on_transmit are actually invoked by the runtime (exercised only by e2e runs), the composed eventual-delivery theorem; no axioms",
+    "Coq proof (invariants by induction over op histories) + model/implementation correspondence + property judgement; partial")
+
+CLAIMED["C06"] = _c(
+    "Coq theorems: header protection round-trips for all masks and headers and changes only the protected bits and packet-number bytes (pn length read from the unmasked first byte); the AEAD nonce is iv XOR left-padded packet number and is injective on [0, 2^62); RFC 9001 initial salt and HKDF labels read from the source equal the RFC transcription; under the ideal-AEAD hypothesis (a visible premise of each theorem) every processed packet was sealed by the peer, each packet number is processed at most once, a forged or replayed datagram leaves data, ack state, window and expansion base unchanged and (below the integrity limit) the connection open, and a stateless-reset close implies the datagram ends in a registered peer token. Tied to the code by generated constants and differential execution of the real protect/unprotect/encrypt/decrypt/expand functions, the real OneRttKey nonces of all three suites, the real SlidingWindow and Token comparison, with exhaustive single-byte mutations, truncations, splices and replays",
+    "5.6, 12",
+    _TB + " h_core/C06; AEAD and header-protection strength are hypotheses (ideal AEAD), not proved; the rxpipe judgement's judge_run is an example only (_partial); the real KeySet failure counter and the crate-private stateless-reset maps are modelled, not driven; end-to-end injection is judged by the e2e_inject monitor; no axioms",
+    "Coq proof (bitwise algebra; invariants under an ideal-AEAD Section hypothesis) + model/implementation correspondence + property judgement")
+
+CLAIMED["C17"] = _c(
+    "PARTIAL: sequentially consistent interleavings only. Proved on the interleaving model of the spsc ring (each atomic load/store/swap, waker register/wake as one step; arbitrary scheduler), for every capacity, schedule and pair of programs: received is a prefix of pushed and equals it once the receiver saw the channel closed (FIFO, exactly once); no slot is read outside the published window [head, tail) or before it was written. No-lost-wake-up is _partial: exhaustive exploration by vm_compute of all interleavings of three close/drop scenarios at capacity 2 only. The atomics' Ordering at each modelled access is tied syntactically to the source by generated constants (C17_orderings). Tied to the code by differential execution of the real spsc channel single-threaded under schedules from the case at operation granularity, plus real-thread stress as supporting evidence. A use-after-free on concurrent drop of both halves was found on the model and reproduced (observation, not a clause of C17)",
+    "5.17, 12",
+    _TB + " h_core/C17; NOT covered: reorderings the C11 memory model allows beyond interleavings, a general no-lost-wake-up invariant, half-written slots, cursor.rs / worker.rs / atomic_waker pair() (orderings pinned only), socket/ring.rs, wakeup_queue.rs; judge_run not proved; no axioms",
+    "Coq proof (invariant by induction over interleaving schedules; bounded exhaustive exploration for wake-ups) + scheduled model/implementation correspondence; partial")
+
 NOT_APPLICABLE = {
     "C07": "interoperation with an independent third-party QUIC/TLS binary cannot be stated as a theorem about any model we could write (DESIGN.md 5.7); its provable content is carried by C05/C08/C14/C06",
 }
-for _p in ["C01", "C02", "C03", "C04", "C05", "C06", "C08", "C09", "C10", "C12", "C13", "C14", "C15", "C16", "C17", "C18", "C20"]:
-    NOT_APPLICABLE.setdefault(_p, PENDING)
+_pending_ids = ["C02", "C03", "C05", "C06", "C09", "C12", "C17", "C18", "C20"]
+for _p in _pending_ids:
+    if _p not in CLAIMED:
+        NOT_APPLICABLE.setdefault(_p, PENDING)
